@@ -1,2 +1,217 @@
-From V Require Import StreamLts.
-Example C03_placeholder : True. Proof. exact I. Qed.
+(* C03 — every consumer is released when its stream ends or it is stopped.
+   Statements only; the proofs are in Proofs/LtsReleaseProofs.v.  They are about the labelled
+   transition system Model/StreamLts.v in its [fixed] variant (the code as repaired: D2, D3, D4),
+   for every schedule, every packet list, every set of stoppers, any number of consumers, any queue
+   bound, any panic script and an abstract pack cache.  [quiescent]: no thread of the system can
+   move.  [cweight k sp] = [c_reg k] + [sp = S1] + [c_pc k = CExitLoaded]. *)
+From Coq Require Import ZArith List Bool Arith Lia.
+From V Require Import StreamLts Cache LtsWire LtsReleaseProofs.
+Import ListNotations.
+Local Open Scope nat_scope.
+
+(* 1. In a quiescent state after the close every consumer that started attaching (also one that was
+   attaching at the very moment of the close) has had Consumer.Close called exactly once, its
+   goroutine has terminated and it is not registered; the join mutex is free. *)
+Theorem C03_released_when_quiescent :
+  forall maxq cache_t cache_empty cache_add cache_snap ncons panic_at stoppers sched pkts,
+  let s := run fixed maxq cache_t cache_empty cache_add cache_snap ncons panic_at sched
+               (init cache_t cache_empty pkts stoppers) in
+  quiescent fixed maxq cache_t cache_empty cache_add cache_snap ncons panic_at s ->
+  s_kp _ s = KDone ->
+  (forall c, c < ncons -> s_att _ s c <> A0 ->
+     c_pc (s_cs _ s c) = CDone /\ c_closes (s_cs _ s c) = 1 /\ c_reg (s_cs _ s c) = false) /\
+  s_lock _ s = None /\ s_lockq _ s = [].
+Proof. exact released_when_quiescent. Qed.
+Print Assumptions C03_released_when_quiescent.
+
+(* 1, local form: only the consumer's own goroutine and stopper need to have come to rest *)
+Theorem C03_released_after_close_local :
+  forall maxq cache_t cache_empty cache_add cache_snap ncons panic_at stoppers sched pkts c,
+  let s := run fixed maxq cache_t cache_empty cache_add cache_snap ncons panic_at sched
+               (init cache_t cache_empty pkts stoppers) in
+  s_kp _ s = KDone -> s_att _ s c = ADone ->
+  step fixed maxq cache_t cache_empty cache_add cache_snap ncons panic_at s (TCons c) = None ->
+  step fixed maxq cache_t cache_empty cache_add cache_snap ncons panic_at s (TStop c) = None ->
+  c_pc (s_cs _ s c) = CDone /\ c_closes (s_cs _ s c) = 1 /\ c_reg (s_cs _ s c) = false.
+Proof. exact released_after_close_local. Qed.
+Print Assumptions C03_released_after_close_local.
+
+(* global quiescence exists only after the close: the closer is enabled until then *)
+Theorem C03_quiescent_only_after_close :
+  forall maxq cache_t cache_empty cache_add cache_snap ncons panic_at (s : st cache_t),
+  quiescent fixed maxq cache_t cache_empty cache_add cache_snap ncons panic_at s -> s_kp _ s = KDone.
+Proof. exact quiescent_closed. Qed.
+Print Assumptions C03_quiescent_only_after_close.
+
+(* 2. The counter is, in every reachable state, the number of consumers in the map plus the
+   removals whose decrement is still owed; so it is never negative, equals the number of registered
+   consumers whenever no removal is in flight, and is zero in a quiescent state after the close. *)
+Theorem C03_count_is_registered :
+  forall maxq cache_t cache_empty cache_add cache_snap ncons panic_at stoppers sched pkts,
+  let s := run fixed maxq cache_t cache_empty cache_add cache_snap ncons panic_at sched
+               (init cache_t cache_empty pkts stoppers) in
+  s_count _ s = sumn ncons (fun c => cweight (s_cs _ s c) (s_stp _ s c)).
+Proof. exact count_is_registered. Qed.
+Print Assumptions C03_count_is_registered.
+
+Theorem C03_count_nonneg :
+  forall maxq cache_t cache_empty cache_add cache_snap ncons panic_at stoppers sched pkts,
+  let s := run fixed maxq cache_t cache_empty cache_add cache_snap ncons panic_at sched
+               (init cache_t cache_empty pkts stoppers) in
+  (0 <= s_count _ s)%Z.
+Proof. exact count_nonneg. Qed.
+Print Assumptions C03_count_nonneg.
+
+Theorem C03_count_registered_when_settled :
+  forall maxq cache_t cache_empty cache_add cache_snap ncons panic_at stoppers sched pkts,
+  let s := run fixed maxq cache_t cache_empty cache_add cache_snap ncons panic_at sched
+               (init cache_t cache_empty pkts stoppers) in
+  (forall c, c < ncons -> s_stp _ s c <> S1 /\ c_pc (s_cs _ s c) <> CExitLoaded) ->
+  s_count _ s = sumn ncons (fun c => b2z (c_reg (s_cs _ s c))).
+Proof. exact count_registered_settled. Qed.
+Print Assumptions C03_count_registered_when_settled.
+
+Theorem C03_count_registered_when_quiescent :
+  forall maxq cache_t cache_empty cache_add cache_snap ncons panic_at stoppers sched pkts,
+  let s := run fixed maxq cache_t cache_empty cache_add cache_snap ncons panic_at sched
+               (init cache_t cache_empty pkts stoppers) in
+  quiescent fixed maxq cache_t cache_empty cache_add cache_snap ncons panic_at s ->
+  s_count _ s = sumn ncons (fun c => b2z (c_reg (s_cs _ s c))).
+Proof. exact count_registered_quiescent. Qed.
+Print Assumptions C03_count_registered_when_quiescent.
+
+Theorem C03_count_zero_when_quiescent :
+  forall maxq cache_t cache_empty cache_add cache_snap ncons panic_at stoppers sched pkts,
+  let s := run fixed maxq cache_t cache_empty cache_add cache_snap ncons panic_at sched
+               (init cache_t cache_empty pkts stoppers) in
+  quiescent fixed maxq cache_t cache_empty cache_add cache_snap ncons panic_at s ->
+  s_kp _ s = KDone -> s_count _ s = 0%Z.
+Proof. exact count_zero_quiescent. Qed.
+Print Assumptions C03_count_zero_when_quiescent.
+
+(* 3. A step of StopConsume(c), and a step of c's goroutine, leave every other consumer (record,
+   attacher and stopper position) exactly as it was — in every state and every variant. *)
+Theorem C03_stop_releases_only_that_consumer :
+  forall maxq cache_t cache_empty cache_add cache_snap ncons panic_at V (s s' : st cache_t) c,
+  step V maxq cache_t cache_empty cache_add cache_snap ncons panic_at s (TStop c) = Some s' ->
+  forall c', c' <> c ->
+    s_cs _ s' c' = s_cs _ s c' /\ s_att _ s' c' = s_att _ s c' /\ s_stp _ s' c' = s_stp _ s c'.
+Proof. exact stop_touches_only_that. Qed.
+Print Assumptions C03_stop_releases_only_that_consumer.
+
+Theorem C03_cons_touches_only_that_consumer :
+  forall maxq cache_t cache_empty cache_add cache_snap ncons panic_at V (s s' : st cache_t) c,
+  step V maxq cache_t cache_empty cache_add cache_snap ncons panic_at s (TCons c) = Some s' ->
+  forall c', c' <> c ->
+    s_cs _ s' c' = s_cs _ s c' /\ s_att _ s' c' = s_att _ s c' /\ s_stp _ s' c' = s_stp _ s c'.
+Proof. exact cons_touches_only_that. Qed.
+Print Assumptions C03_cons_touches_only_that_consumer.
+
+(* Full statement "a TAtt c step leaves s_cs s c' unchanged for every c' <> c" is FALSE in the model
+   ([att_touches_only_that_refuted] below): the Unlock in c's attach hands the join mutex to an
+   attacher c' blocked in Lock(), and the model lets c' take its cache snapshot (c_q, c_pushed,
+   c_prefill) inside the same atomic step.  Proved: unchanged unless c' was blocked in Lock(), and
+   in any case nothing that releasing is about (registered, closed, goroutine position, Close
+   calls, delivered packets) changes. *)
+Theorem C03_att_touches_only_that_consumer_partial :
+  forall maxq cache_t cache_empty cache_add cache_snap ncons panic_at stoppers sched pkts c s',
+  let s := run fixed maxq cache_t cache_empty cache_add cache_snap ncons panic_at sched
+               (init cache_t cache_empty pkts stoppers) in
+  step fixed maxq cache_t cache_empty cache_add cache_snap ncons panic_at s (TAtt c) = Some s' ->
+  forall c', c' <> c ->
+    (s_att _ s c' <> A0W -> s_cs _ s' c' = s_cs _ s c') /\
+    same_release_fields (s_cs _ s c') (s_cs _ s' c') /\ s_stp _ s' c' = s_stp _ s c'.
+Proof. exact att_touches_only_that_partial. Qed.
+Print Assumptions C03_att_touches_only_that_consumer_partial.
+
+Theorem C03_att_touches_only_that_consumer_refuted :
+  let pre := lcase_of fixed 2 [{| p_id := 1; p_kind := 3 |}] [] [TPub; TPub; TPub; TAtt 0; TAtt 1] in
+  let s := lrun pre in
+  s_att _ s 1 = A0W /\
+  match lstep pre s (TAtt 0) with
+  | Some s' => c_prefill (s_cs _ s' 1) <> c_prefill (s_cs _ s 1)
+  | None => False
+  end.
+Proof. exact att_touches_only_that_refuted. Qed.
+Print Assumptions C03_att_touches_only_that_consumer_refuted.
+
+(* A stopped consumer is released whether or not the stream is closed: once the stopper of c has
+   run to completion and c's goroutine cannot move, Consumer.Close has been called exactly once,
+   the goroutine has terminated and c is out of the map. *)
+Theorem C03_stopped_is_released_local :
+  forall maxq cache_t cache_empty cache_add cache_snap ncons panic_at stoppers sched pkts c,
+  let s := run fixed maxq cache_t cache_empty cache_add cache_snap ncons panic_at sched
+               (init cache_t cache_empty pkts stoppers) in
+  step fixed maxq cache_t cache_empty cache_add cache_snap ncons panic_at s (TCons c) = None ->
+  step fixed maxq cache_t cache_empty cache_add cache_snap ncons panic_at s (TStop c) = None ->
+  step fixed maxq cache_t cache_empty cache_add cache_snap ncons panic_at s (TAtt c) = None ->
+  s_att _ s c = ADone -> stoppers c = true ->
+  c_pc (s_cs _ s c) = CDone /\ c_closes (s_cs _ s c) = 1 /\ c_reg (s_cs _ s c) = false.
+Proof. exact stopped_is_released_local. Qed.
+Print Assumptions C03_stopped_is_released_local.
+
+(* the global corollary *)
+Theorem C03_stopped_is_released_quiescent :
+  forall maxq cache_t cache_empty cache_add cache_snap ncons panic_at stoppers sched pkts c,
+  let s := run fixed maxq cache_t cache_empty cache_add cache_snap ncons panic_at sched
+               (init cache_t cache_empty pkts stoppers) in
+  quiescent fixed maxq cache_t cache_empty cache_add cache_snap ncons panic_at s ->
+  s_stp _ s c = SDone -> s_att _ s c = ADone -> stoppers c = true ->
+  c_pc (s_cs _ s c) = CDone /\ c_closes (s_cs _ s c) = 1.
+Proof. exact stopped_is_released_quiescent. Qed.
+Print Assumptions C03_stopped_is_released_quiescent.
+
+(* 4. No lost wake-up: a goroutine blocked in cond.Wait is never closed. *)
+Theorem C03_no_lost_wakeup :
+  forall maxq cache_t cache_empty cache_add cache_snap ncons panic_at stoppers sched pkts c,
+  let s := run fixed maxq cache_t cache_empty cache_add cache_snap ncons panic_at sched
+               (init cache_t cache_empty pkts stoppers) in
+  c_pc (s_cs _ s c) = CWait -> c_closed (s_cs _ s c) = false.
+Proof. exact no_lost_wakeup. Qed.
+Print Assumptions C03_no_lost_wakeup.
+
+(* 5. Consumer.Close is called at most once. *)
+Theorem C03_closed_at_most_once :
+  forall maxq cache_t cache_empty cache_add cache_snap ncons panic_at stoppers sched pkts c,
+  let s := run fixed maxq cache_t cache_empty cache_add cache_snap ncons panic_at sched
+               (init cache_t cache_empty pkts stoppers) in
+  c_closes (s_cs _ s c) <= 1.
+Proof. exact closed_at_most_once. Qed.
+Print Assumptions C03_closed_at_most_once.
+
+(* 6. The code before the repairs violates 1, 2 and 4 (variant [original], rcache instance) *)
+Theorem C03_lost_wakeup_refuted :
+  let cs := lcase_of original 1 [] [] [TAtt 0; TAtt 0; TAtt 0; TClose; TClose; TClose; TCons 0] in
+  let s := lrun cs in
+  lquiet cs s /\ s_kp _ s = KDone /\ s_att _ s 0 = ADone /\
+  c_pc (s_cs _ s 0) = CWait /\ c_closed (s_cs _ s 0) = true /\ c_closes (s_cs _ s 0) = 0.
+Proof. exact D3_lost_wakeup_refuted. Qed.
+Print Assumptions C03_lost_wakeup_refuted.
+
+Theorem C03_attach_after_close_refuted :
+  let cs := lcase_of original 1 [] [] [TClose; TClose; TClose; TAtt 0; TAtt 0; TAtt 0; TCons 0] in
+  let s := lrun cs in
+  lquiet cs s /\ s_kp _ s = KDone /\ s_att _ s 0 = ADone /\
+  c_reg (s_cs _ s 0) = true /\ c_pc (s_cs _ s 0) = CWait /\ c_closed (s_cs _ s 0) = false /\
+  c_closes (s_cs _ s 0) = 0 /\ s_count _ s = 1%Z.
+Proof. exact D2_attach_after_close_refuted. Qed.
+Print Assumptions C03_attach_after_close_refuted.
+
+Theorem C03_count_negative_refuted :
+  let cs := lcase_of original 1 [] [true]
+              [TAtt 0; TAtt 0; TAtt 0; TStop 0; TClose; TClose; TClose; TStop 0] in
+  (s_count _ (lrun cs) < 0)%Z.
+Proof. exact D4_negative_count_refuted. Qed.
+Print Assumptions C03_count_negative_refuted.
+
+(* 7. non-vacuity: a concrete schedule of the fixed model (one packet, consumer 1 stopped from
+   outside, consumer 0 swept by the close while blocked in Wait) reaches a quiescent state after the
+   close; both consumers got the packet, are released, the counter is 0 *)
+Example C03_nonvacuous :
+  let s := lrun nonvac_case in
+  lquiet nonvac_case s /\ s_kp _ s = KDone /\
+  s_att _ s 0 = ADone /\ s_att _ s 1 = ADone /\
+  c_pc (s_cs _ s 0) = CDone /\ c_closes (s_cs _ s 0) = 1 /\ map p_id (c_out (s_cs _ s 0)) = [1%Z] /\
+  c_pc (s_cs _ s 1) = CDone /\ c_closes (s_cs _ s 1) = 1 /\ map p_id (c_out (s_cs _ s 1)) = [1%Z] /\
+  s_count _ s = 0%Z.
+Proof. intro s. split; [exact nonvac_quiescent|]. vm_compute. repeat split. Qed.
